@@ -55,6 +55,8 @@ def run_point(run, drv, rng, pt, stream="lattice", container="plain"):
         run.count(f"{stream}.inadmissible", "inplace x function called on nested tensordicts")
         return None
     self_locked = rng.random() < 0.35
+    if container == "params":
+        self_locked = False    # the lock of a TensorDictParams wrapper is C13's subject: `TensorDictParams(td, lock=True).is_locked` is not the content's
     if self_locked:
         self_td.lock_()
     all_ids = L.flat_ids(s)
@@ -288,7 +290,7 @@ def main():
     ]
     run.assumptions += [
         "the user function is pure (no shared mutable state): required by threads_eq_sequential",
-        "TensorDictParams, nested lazy stacks and non-tensor leaves are checked by the reference oracle only (extended domain); root lazy stacks, tensorclasses and sub-tensordicts (public front-ends) run against the model",
+        "nested lazy stacks, non-tensor leaves and locked TensorDictParams are checked by the reference oracle only (extended domain); root lazy stacks, tensorclasses, sub-tensordicts and unlocked TensorDictParams run against the model",
     ]
     torch.set_num_threads(2)
     run.build_and_audit(["TdVerif.Props.C20"])
@@ -312,8 +314,7 @@ def main():
             run.sample({"stream": "lattice", "case": c[0], "model==impl": c[1] == c[2]})
             shown += 1
     # other container kinds through the SAME lattice and the SAME model (refinement of the plain-tensordict model):
-    # a tensorclass on every front-end; a sub-tensordict on the public front-ends (the private `_fast_apply(checked=True)` writes
-    # into a sub-tensordict's result through the validating `.set`, which the `checked` model does not describe)
+    # a tensorclass, a sub-tensordict (row 0 of a parent) and an (unlocked) TensorDictParams on every front-end, threads included
     n_cont = 250 if run.tier == "quick" else 3000
     done = 0
     while done < n_cont:
@@ -323,9 +324,12 @@ def main():
     done = 0
     while done < n_cont:
         pt = sample_point(rng)
-        if pt["front"][0] == "fast":
-            continue
         if run_point(run, drv, rng, pt, stream="containers", container="sub_td") is not None:
+            done += 1
+    done = 0
+    while done < n_cont:
+        pt = sample_point(rng)
+        if run_point(run, drv, rng, pt, stream="containers", container="params") is not None:
             done += 1
     import c20_lazy
     c20_lazy.run_lazy_lattice(run, drv, rng, 400 if run.tier == "quick" else 4000)
